@@ -184,6 +184,18 @@ impl Source for VarSource {
 pub fn gen_dlv(seed: u64, n: usize, out: &mut String) {
     let mut r = Rng::new(seed ^ 0xD17);
     for i in 0..n {
+        if i % 200 == 7 || i % 200 == 8 {
+            // a LONG stream: more than 2048 frames of 32 samples (frame numbers cross the 1-, 2- and 3-byte classes of the coded
+            // number), no LPC (keeps the estimator oracle list short), small noise, a short last frame; once single-threaded, once
+            // multi-threaded on the same input
+            let mut r2 = Rng::new(seed ^ 0x10C6 ^ ((i / 200) as u64) << 20);
+            let mut c = sig::Cfg::default(); c.bs = 32; c.ul = false; c.fo = 1 + r2.below(4) as usize;
+            let frames = 2049 + r2.below(300) as usize; let tail = 1 + r2.below(31) as usize;
+            let s: Vec<i32> = (0..frames * 32 + tail).map(|_| r2.range(-9, 9) as i32).collect();
+            let th = if i % 200 == 7 { "s" } else { "m2" };
+            writeln!(out, "DLV d{} i1{} {} {} {} {} {} {}", i, th, c.encode(), 44100, 1, 8, 32, sig::fmt_samples(&s)).unwrap();
+            continue;
+        }
         let mut c = sig::gen_valid_cfg(&mut r);
         let (rate, ch, bps, bs, s) = gen_input(&mut r, true);
         c.bs = bs;
